@@ -314,6 +314,16 @@ static void fatal_handler(const char *what)
       pl.u8(t.tid);
     }
   }
+  // ... and the hook events recorded so far (the ownership monitor judges the safety rules on them)
+  pl.u32((uint32_t)g_events.size());
+  for (auto &e : g_events)
+  {
+    pl.u32(e.kind);
+    pl.u32(e.tid);
+    pl.u64(e.obj);
+    pl.u64((uint64_t)e.a);
+    pl.u64((uint64_t)e.b);
+  }
   s.blob(pl.b);
   if (g_child_fd >= 0)
   {
@@ -368,8 +378,11 @@ static void with_sched(const PipeCfg &pc, size_t nblocks, OpOut &out, F f)
   g_events.clear();
 }
 
+static void set_refill(int units);
 static void set_chunk(const PipeCfg &pc)
 {
+  if (pc.refill > 0)
+    set_refill(pc.refill);
   if (pc.chunk > 0)
   {
     if (pc.chunk % 16 != 0 || pc.chunk > chunk_capacity())
@@ -699,6 +712,15 @@ bytes hash_string(int alg, const bytes &m)
   delete h;
   return out;
 }
+bytes hash_string_reuse(int alg, const bytes &decoy, const bytes &m)
+{
+  Hashmaster *h = hasher(alg);
+  bytes out(hash_len(alg)), tmp(hash_len(alg));
+  h->getStringHash(decoy.empty() ? (const u8_t *)"" : decoy.data(), (u32_t)decoy.size(), tmp.data());
+  h->getStringHash(m.empty() ? (const u8_t *)"" : m.data(), (u32_t)m.size(), out.data());
+  delete h;
+  return out;
+}
 static void set_refill(int units)
 {
   if (units > 0)
@@ -764,8 +786,9 @@ bytes hash_string_synth(int alg, uint64_t len, uint32_t pat)
   u8_t *m = (u8_t *)malloc(len ? len : 1);
   if (!m)
   {
-    fprintf(stderr, "harness error: cannot allocate %llu bytes\n", (unsigned long long)len);
-    _exit(97);
+    // not enough memory on this machine for the materialised message: the caller skips the case
+    delete h;
+    return bytes();
   }
   for (uint64_t i = 0; i < len; i++)
     m[i] = synth_byte(i, pat);
